@@ -367,7 +367,8 @@ class Sym:
             else:
                 out.env[k] = self.fresh(f"{k}@join{nid}")
         for tn in self.templates:
-            vals = [s.tmpl.get(tn) for s in states]
+            # (a value lost at an earlier join is re-evaluated from the state's current symbolic values - see template_value)
+            vals = [self.template_value(tn, s) for s in states]
             if all(v is not None for v in vals) and all(A.equal(vals[0], v) for v in vals[1:]):
                 out.tmpl[tn] = vals[0]
             else:
@@ -384,7 +385,25 @@ class Sym:
 
     def template_at(self, tn: str, nid: int) -> Optional[Poly]:
         st = self.state_in.get(nid)
-        return None if st is None else st.tmpl.get(tn)
+        if st is None:
+            return None
+        return self.template_value(tn, st)
+
+    def template_value(self, tn: str, st: SymState) -> Optional[Poly]:
+        """value of an *absolute* template (one whose entry value is the plain sum of its variables) in a state"""
+        v = st.tmpl.get(tn)
+        if v is None and tn in self.templates:
+            # the incrementally tracked value was lost at a join (a variable differs between the paths), but the template can still be
+            # evaluated from the current symbolic values: a variable havoc'd at the join is ONE fresh atom, and a later assignment
+            # in terms of it (Infl = P - Runoff after the branch) cancels exactly
+            tot = A.const(0)
+            for var, c in self.templates[tn].items():
+                val = st.env.get(var)
+                if val is None:
+                    val = A.atom(var)
+                tot = A.add(tot, A.mul(A.const(c), val))
+            return tot
+        return v
 
 
 class _EnvNF(NF):
